@@ -199,6 +199,68 @@ def ertm_both_directions_at_once(window: int, na: int, nb: int, s1: int, s2: int
         return b.sdus == [sdu_a] and a.sdus == [sdu_b] and not pa._pending_pdus and not pb._pending_pdus
 
 
+class _CountingChan(_Chan):
+    """records, for every frame handed to send_pdu, how many I-frames this side had been given before and including the
+    PDU it is processing at that moment"""
+
+    def __init__(self, spec):
+        super().__init__(spec)
+        self.rx_i, self.in_i, self.stamps = 0, False, []
+
+    def send_pdu(self, pdu):
+        super().send_pdu(pdu)
+        self.stamps.append((self.rx_i, self.in_i))
+
+
+def _give(chan, proc, f):
+    is_i = not (f[0] & 1)
+    chan.in_i = is_i
+    if is_i:
+        chan.rx_i += 1
+    proc.on_pdu(f)
+    chan.in_i = False
+
+
+@harness(pre=['1 <= na <= 5 and 1 <= nb <= 5 and 0 <= s1 <= 1 and 0 <= s2 <= 1 and 0 <= s3 <= 1 and 0 <= s4 <= 1'], family='ertm', twin=True, kernels=K, timeout=(240, 500), grid={'mps': [1], 'wa': [1, 2, 3], 'wb': [1, 3]},
+         bounds='both ERTM processors write an SDU of 1..5 one-byte segments at the same moment, windows 1..3 x {1, 3} per condition (when they differ one side has to queue I-frames while it keeps receiving), first four delivery choices symbolic: every frame put on the wire carries a ReqSeq equal to the number of I-frames its sender has received so far (modulo 64; the frame being processed may or may not be counted), so nothing is acknowledged early or late; each side keeps at most the window of unacknowledged I-frames; both SDUs arrive once and intact')
+def ertm_reqseq_is_current(na: int, nb: int, s1: int, s2: int, s3: int, s4: int, mps: int, wa: int, wb: int) -> bool:
+    na, nb = C(na, 1, 5), C(nb, 1, 5)
+    with detloop.running() as loop:
+        spec = l2cap.ClassicChannelSpec(psm=0x1001, mode=l2cap.TransmissionMode.ENHANCED_RETRANSMISSION)
+        a, b = _CountingChan(spec), _CountingChan(spec)
+        pa = l2cap.EnhancedRetransmissionProcessor(a, peer_tx_window_size=wa, peer_mps=mps)
+        pb = l2cap.EnhancedRetransmissionProcessor(b, peer_tx_window_size=wb, peer_mps=mps)
+        oa, ob = Observer(wa), Observer(wb)
+        sdu_a, sdu_b = bytes(range(1, na + 1)), bytes(range(101, 101 + nb))
+        pa.send_sdu(sdu_a)
+        pb.send_sdu(sdu_b)
+        ia = ib = 0
+        for s in [s1, s2, s3, s4] + [0, 1] * 300:
+            if (s == 0 or ib >= len(b.out)) and ia < len(a.out):
+                f = a.out[ia]
+                ia += 1
+                if not oa.on_forward(f):
+                    return False
+                ob.on_backward(f)
+                _give(b, pb, f)
+            elif ib < len(b.out):
+                f = b.out[ib]
+                ib += 1
+                if not ob.on_forward(f):
+                    return False
+                oa.on_backward(f)
+                _give(a, pa, f)
+            else:
+                break
+            loop.run_ready()
+        for ch in (a, b):
+            for f, (rx, in_i) in zip(ch.out, ch.stamps):
+                req = f[1] & 0x3F
+                if req != rx % 64 and not (in_i and req == (rx - 1) % 64):
+                    return False
+        return b.sdus == [sdu_a] and a.sdus == [sdu_b] and not pa._pending_pdus and not pb._pending_pdus
+
+
 def _setup(loop, mode_a, fcs_a, mode_b, fcs_b, mtu_a, mtu_b, b_supports_fcs=True):
     F = l2cap.L2CAP_Information_Request.ExtendedFeatures
     w = Wire(handles=(1,), features=(None, None if b_supports_fcs else (F.FIXED_CHANNELS, F.ENHANCED_RETRANSMISSION_MODE)))
